@@ -16,6 +16,7 @@ import (
 	"verifharness/gen"
 	"verifharness/impl"
 	"verifharness/model"
+	"verifharness/probe"
 	"verifharness/rk"
 	"verifharness/sem"
 	"verifharness/sgen"
@@ -969,6 +970,72 @@ func TestProcessZone(t *testing.T) {
 	}
 	time.Local = old
 	evid.Exhaustive("process zone x time text x {no zone argument, empty, offset, Local}", n)
+}
+
+// TestProcessZoneChangesBetweenRuns: the zone of the process is not part of a loaded script. One loaded script is run in
+// one process zone, the host changes the zone (time.Local), and the same loaded script runs again on an equal point: the
+// second run reads zone-less text in the zone that holds now - exactly what a script loaded afresh in that zone gives.
+func TestProcessZoneChangesBetweenRuns(t *testing.T) {
+	old := time.Local
+	defer func() { time.Local = old }()
+	texts := []string{"2021-05-27 06:54:14", "2021-05-27 06:54:14.760", "06 Jan 2017 16:16:37.000", "171113 14:14:20", "2021/02/27 - 14:14:20", "Wed Jan 25 09:20:30.123456 2017", "May 27, 2021 6:54:14 AM",
+		"2021-05-27T06:54:14Z", "27/May/2021:06:54:14 +0800", "1622098454", "not a time"}
+	zones := []string{"Asia/Kolkata", "America/New_York", "UTC", "Pacific/Chatham", "Asia/Kolkata"}
+	n := 0
+	for ti, text := range texts {
+		for form := 0; form < 3; form++ {
+			c := sem.NewCase(nil)
+			c.Fields = map[string]any{"keep": "k", "ts": text}
+			c.Tags = map[string]string{}
+			var call *gen.Node
+			switch form {
+			case 0:
+				call = gen.NCall("default_time", id("ts"))
+			case 1:
+				call = gen.NCall("default_time", id("ts"), str(""))
+			default:
+				call = gen.NCall("default_time", id("ts"), str("+8"))
+			}
+			c.Scripts[c.Root] = gen.FixAll([]*gen.Node{call, gen.NCall("probe", str("after"), gen.NCall("get_key", str("ts")))})
+			c.Print(nil)
+			var kept sem.ImplOut
+			for zi, zn := range zones {
+				loc, err := time.LoadLocation(zn)
+				if err != nil {
+					t.Fatalf("harness: %v", err)
+				}
+				time.Local = loc
+				fresh := sem.RunV1(c, 0) // loaded in this zone
+				if zi == 0 {
+					kept = fresh
+					continue
+				}
+				again := kept.Again(c.Fields) // loaded in the first zone, run now
+				normFail(&fresh)
+				normFail(&again)
+				rp := c.Replay(fmt.Sprintf("loaded while the process zone was %s, run again after it became %s", zones[0], zn))
+				if again.Crash != nil || fresh.Crash != nil {
+					rk.Fail(t, "zone-change", rp, "run panicked: %v %v", again.Crash, fresh.Crash)
+				}
+				if !again.Time.Equal(fresh.Time) || fmt.Sprint(renderF(again.Fields)) != fmt.Sprint(renderF(fresh.Fields)) || (again.Err == nil) != (fresh.Err == nil) {
+					rk.Fail(t, "zone-change", rp, "a script loaded while the process zone was %s and run after the zone became %s gives time %v fields %v; the same script loaded afresh gives time %v fields %v\nscript:\n%s\nsubject: %q",
+						zones[0], zn, again.Time.UTC(), renderF(again.Fields), fresh.Time.UTC(), renderF(fresh.Fields), c.Texts[c.Root], text)
+				}
+				n++
+			}
+			evid.Case(fmt.Sprintf("zonechange/%d/%d", ti, form), true, "process-zone/changed-between-runs")
+		}
+	}
+	time.Local = old
+	evid.Exhaustive("time text x zone argument x sequence of process zones, one loaded script", n)
+}
+
+func renderF(f map[string]any) map[string]string {
+	out := map[string]string{}
+	for k, v := range f {
+		out[k] = probe.Render(v)
+	}
+	return out
 }
 
 func TestReplays(t *testing.T) {
